@@ -26,6 +26,16 @@ CHECKS = {
         'terminator at END, tiles the range, no U left, for all decode streams/images; every while-loop terminates (explicit measures). Alignment after the text pass is refuted '
         '(known finding F, negation proved). "Every executed address in a c block" and the sna2skool leg are correspondence + e2e only.',
    note=TB + 'hand model Model/SnaCtl tied by correspondence (5.5k ops/run) with decode tables taken from the real opcodes.decode/Disassembler; three heuristic-limit known findings', ref='§8 C14'),
+ 'C11': dict(cat='proof', technique='Lean 4 theorems (induction over block lists / pulse lists) + model/implementation correspondence + e2e with independent tape writers/decoders',
+   text='31 theorems on hand models of tape.get_edges (both data paths), TAP/PZX/TZX parsers and writers: edges sorted, exact pulse sequences, decode-back to the block bits, '
+        'data-block index ranges, polarity/first-edge laws, TAP/PZX/TZX forms give identical edges, TAP and PZX round trips, PULS/DATA codecs — for all block lists and timings. '
+        'One genuine defect (truncation mid-bit for PZX DATA with p0!=p1 and used bits<8) is proved as a negation and listed as known; exact-pulse/decode theorems exclude that class (_partial).',
+   note=TB + 'hand models Model/Edges, TapeFiles, TzxFile tied by correspondence (13k cases/run); tapinfo text and TZX loop expansion e2e only', ref='§8 C11'),
+ 'C04': dict(cat='proof', technique='Lean 4 theorems (decide over mode/directive tables; induction over line lists) + model/implementation correspondence + e2e with an independent two-pass assembler',
+   text='17 theorems: the substitution/fix-mode weight tables of skoolparser and skool2bin select the same directives in all 7 modes (tables dumped from the real modules each run); '
+        'BinWriter layout (prepend/replace/overwrite/append/remove) agrees with sequential assembly of the parser\'s ASM-mode instruction list for all line lists; numeral base conversion preserves value. '
+        'The property itself (skool2asm output assembled by an independent mini assembler == skool2bin bytes; #PEEK) is e2e exploration; documented design limits are excluded and two are listed as known findings.',
+   note=TB + 'hand models Model/AsmModes, AsmLayout, ReplaceNums tied by correspondence (6k cases/run); label substitution and template text e2e only', ref='§8 C04'),
 }
 NA = {}
 def main():
